@@ -11,11 +11,15 @@
         silent tracks are `s`, an alternativeValueSet is `label:gain:mute:posOff`.
         track specs in the output: `D<i>` direct, `S` silent, `M(<spec>|gain|delay)`, `X[<spec>+<spec>..]` mix, `G(<spec>|gain)`.
         `W` instead of `R ..`                      request: the validation predicates of the document
-   out: `ok <item> ; <item> ...` (items in selection order) | `err <kind>` | `bad-op`;
+   out: `ok <item> ; <item> ...` (items in selection order) | `err <kind>` | `bad-op`; an `R` request runs
+        `Adm.selectValidated` (Model/SelectValidated.lean: the C14 model of `validate_structure` on `toDoc adm`, then
+        the selection): a document the validation rejects gives `err validate:<function of the raise statement>`
+        (`AdmKind.site`), a non-ADM failure inside the validation model `err validate-internal`;
         for `W`: `wf <multitreeOK 0|1> <wrappedNonempty 0|1> <vm 0|1> <vs 0|1>` where `vm` / `vs` = the C14 model's
         `validateMultitree` / `validateStructure` accept the document graph `toDoc adm` (link C06 ↔ C14). -/
 import Earverif.Model.SelectItems
 import Earverif.Model.Validate
+import Earverif.Model.SelectValidated
 import Earverif.Driver.Util
 open Earverif.Adm Earverif.Driver
 
@@ -152,8 +156,10 @@ def answer (line : String) : String :=
       let vs := match Earverif.Validate.validateStructure d with | .ok _ => true | .error _ => false
       s!"wf {sBool (multitreeOK a.fmt)} {sBool (wrappedNonempty a.fmt)} {sBool vm} {sBool vs}"
     else
-      match selectRenderingItems a r.prog r.sel with
-      | .error e => "err " ++ showErr e
+      match selectValidated a r.prog r.sel with
+      | .error (.inl (.adm k _)) => "err validate:" ++ k.site.1
+      | .error (.inl (.internal _)) => "err validate-internal"
+      | .error (.inr e) => "err " ++ showErr e
       | .ok items => "ok " ++ " ; ".intercalate (items.map showItem)
 
 def main : IO Unit := lineLoop answer
